@@ -51,19 +51,20 @@ Proof. vm_compute. split; reflexivity. Qed.
 (* A SURFACE PROGRAM (Proofs/Surface.v) is what is written, token by token: result and command names, argument names, values
    that are quoted strings (either quote character, any escapes: given by their lexeme), integers and decimals in any
    spelling the token rules accept, unquoted identifiers, lists at any nesting with or without a trailing comma,
-   dictionaries of "key": value pairs, argument lists with or without a trailing comma.  Its DENOTATION (xden / xaexp) is
+   dictionaries of "key": value pairs, argument lists with or without a trailing comma, commands in the `Result = Command(...)` form or
+   in the EEMS 2.0 form `COMMAND(...)` (which makes the program version 2).  Its DENOTATION (xden / xaexp) is
    what it means: decoded strings, integer values, lists, dictionaries -- no layout, no quote style, no commas.
 
    LAYOUT IRRELEVANCE (C10_layout_irrelevance): put ANY gaps -- blanks, tabs, line breaks of any kind (LF, CR, CRLF), blank
    lines, comments -- before, between and after the tokens of ANY lexically well-formed surface program (where a gap is
-   empty the two tokens must not run together: lay_ok); the text parses to a version-3 program with the same commands in
+   empty the two tokens must not run together: lay_ok); the text parses to a program of the right version with the same commands in
    order, the same names and, for every argument, the denotation of what was written.  Every hypothesis is a computable
    boolean (surface_okb).  Proved through: gaps are skipped by the master regex (Proofs/Layout.v); every token is taken
    whole when followed by a gap or by a token it cannot run into (per-rule lemmas, Proofs/LexSerial.v, SurfaceLayout.v);
    the LALR automaton of the regenerated tables accepts the token stream and the semantic actions compute the denotation
    (simulation lemmas per syntactic category, Proofs/Surface.v). *)
 Theorem C10_layout_irrelevance : forall fs p gaps final, p <> [] -> surface_okb p gaps final = true ->
-  exists pp, parse fs (lay (combine gaps (tkx_program p)) final) = POk pp /\ pp_version pp = 3%N /\ Forall2 xcmd_matches p (pp_cmds pp).
+  exists pp, parse fs (lay (combine gaps (tkx_program p)) final) = POk pp /\ pp_version pp = xversion p /\ Forall2 xcmd_matches p (pp_cmds pp).
 Proof. exact surface_layout_b. Qed.
 (* hence two renderings with the same denotation -- differing in gaps, quote characters, escapes, spelling of numerals,
    trailing commas -- parse to the same program, line numbers apart *)
@@ -73,7 +74,7 @@ Theorem C10_same_denotation : forall fs p1 p2 g1 g2 f1 f2,
                   map erase_cmd (pp_cmds pp1) = map erase_cmd (pp_cmds pp2) /\ pp_version pp1 = pp_version pp2.
 Proof. intros fs p1 p2 g1 g2 f1 f2 A1 A2 B1 B2 Hd.
   destruct (surface_layout_b fs p1 g1 f1 A1 A2) as (pp1 & E1 & V1 & M1). destruct (surface_layout_b fs p2 g2 f2 B1 B2) as (pp2 & E2 & V2 & M2).
-  exists pp1, pp2. repeat split; [exact E1 | exact E2 | | congruence]. rewrite (matches_dens _ _ M1), (matches_dens _ _ M2). exact Hd. Qed.
+  exists pp1, pp2. repeat split; [exact E1 | exact E2 | | rewrite V1, V2; apply den_version; exact Hd]. rewrite (matches_dens _ _ M1), (matches_dens _ _ M2). exact Hd. Qed.
 (* the layout the serialiser writes is one of them, for every program (C15), and so is every re-layout of it *)
 Theorem C10_layout_of_serialised_programs : forall fs p gaps final, p <> [] -> forallb wfc p = true -> List.length gaps = List.length (tk_program p) ->
   Forall isgap gaps -> lexes final [] -> lay_ok (combine gaps (tk_program p)) final ->
@@ -83,7 +84,7 @@ Proof. exact layout_irrelevant. Qed.
 (* non-vacuity: single quotes, a hex escape in a key, +1, trailing commas everywhere, a comment before a CRLF, a final
    comment without line break:   A = Cmd( P = [+1, 'x y', [2.5,], ],  # note<CR><LF>  Q = ["k\x41": v,], )<LF># end   *)
 Definition ex_surface : list xcmd :=
-  [ {| xc_result := rx "A"; xc_name := rx "Cmd"; xc_trail := true;
+  [ {| xc_result := Some (rx "A"); xc_name := rx "Cmd"; xc_trail := true;
        xc_args := [ (rx "P", XAVal (XList [XLeaf (XI (rx "+1")); XLeaf (XS (rx "'x y'")); XList [XLeaf (XF (rx "2.5"))] true] true));
                     (rx "Q", XADict (rx """k\x41""", XW (rx "v")) [] true) ] |} ].
 Definition ex_gaps : list text :=
@@ -100,8 +101,8 @@ Example C10_layout_example : ex_surface <> [] /\ surface_okb ex_surface ex_gaps 
 Proof. split; [discriminate|]. split; vm_compute; [reflexivity | split; reflexivity]. Qed.
 
 (* NOT proved: the same for the forms outside the surface family -- unquoted multi-word text and text with colons
-   (plain_string / permissive_plain_string productions, PLAIN_STRING tokens), the EEMS 2.0 command form, dictionaries with
-   unquoted keys or list values.  These are covered by the correspondence only: random programs x random layouts,
+   (plain_string / permissive_plain_string productions, PLAIN_STRING tokens), dictionaries with unquoted keys or list
+   values.  These are covered by the correspondence only: random programs x random layouts,
    single-token corruptions, token soups, unquoted multi-word text, all compared with the real parser's result including
    line numbers; the evidence counts how many of the generated renderings are instances of C10_layout_irrelevance (Coq
    re-assembles each text from its decomposition and evaluates surface_okb).  Recorded limitation of the code itself
